@@ -309,6 +309,12 @@ def check_C06(tier):
     tcl = ["default"] if tier == "quick" else E4_CONFIGS
     jobs = [{"config": c, "mode": "dbg", "model": "valid", "kind": "fn", "target": d, "post": "truncation"}
             for c in tcl for d in ("minimal_lexical::parse::parse_number", "minimal_lexical::parse::parse_number_fast", "minimal_lexical::slow::parse_mantissa")]
+    fcl = ["default", "compact"] if tier == "quick" else E4_CONFIGS
+    fjobs = [{"config": c, "mode": m, "model": "valid", "kind": "truncflag", "target": fty} for c in fcl for m in ("dbg", "rel") for fty in ("f32", "f64")]
+    fres = run_jobs(fjobs)
+    ffx = F.build_many([(c, "dbg") for c in fcl])
+    _e4_report(rep, "C06", fres, lambda j: "%s flag honoured" % j["config"], {"%s flag honoured" % c: ffx[(c, "dbg")] for c in fcl},
+               fn_filter=lambda o: o["kind"].startswith("post:trunc"), floor_per_group=2)
     results = run_jobs(jobs)
     tfx = F.build_many([(c, "dbg") for c in tcl])
     _e4_report(rep, "C06", results, lambda j: "%s typestate" % j["config"], {"%s typestate" % c: tfx[(c, "dbg")] for c in tcl}, floor_per_group=3)
@@ -319,6 +325,9 @@ def check_C06(tier):
         "(Typestate, E4) at every exit of parse_number either many_digits is set or both input iterators are exhausted; parse_number_fast returns "
         "Some only with both exhausted: a digit can be left unread by the 19-digit stage only if the result says so; at every exit of "
         "slow::parse_mantissa either both iterators are exhausted or the returned digit count has reached max_digits. "
+        "The flag is honoured by the middle stage (E4, both formats, dbg and rel): entered with many_digits set, lemire::<F> reaches a return only declined, "
+        "or after evaluating compute_float on w and on w+1 (argument interval shifted by exactly one) and comparing the two results; bellerophon::<F> "
+        "calls error_is_accurate only with an estimate of at least error_scale() (one unit of the significand in the estimate's own unit, read from the code). "
         "Necessary condition of long-input rounding: MAX_DIGITS >= D_mid(F), where D_mid is computed exactly (768 for f64, 113 for f32 on IEEE parameters "
         "taken from the compiler); with fewer retained digits an exact tie is replaced by prefix||1 < tie and rounds the wrong way. Plus the capacity "
         "formula of DESIGN appendix B evaluated on the extracted constants.",
@@ -361,6 +370,7 @@ def check_C11(tier):
     rep.analysed = {"configurations": cl}
     ccl = ["default", "compact"] if tier == "quick" else E4_CONFIGS
     wjobs = [{"config": c, "mode": m, "model": "valid", "kind": "window", "target": fty} for c in ccl if "compact" in c for m in ("dbg", "rel") for fty in ("f32", "f64")]
+    wjobs += [{"config": c, "mode": m, "model": "valid", "kind": "truncflag", "target": fty} for c in ccl for m in ("dbg", "rel") for fty in ("f32", "f64")]
     results = run_jobs(_cutoff_jobs(ccl) + wjobs)
     cfx = F.build_many([(c, "rel") for c in ccl])
     stage = ("minimal_lexical::lemire::", "minimal_lexical::bellerophon::", "minimal_lexical::extended_float::")
@@ -384,7 +394,9 @@ def check_C11(tier):
         "shift leaves the pending error in the unit of the un-normalised significand); sibling agreement: for every biased exponent of the subnormal range "
         "(singleton classes -64 .. -(63-MANTISSA_SIZE)+2) and for all larger exponents as one class, with significand and error estimate abstract, the width "
         "error_is_accurate::<F> passes to lower_n_halfway/lower_n_mask is a single value and equals the width at which every nearest-even instance of "
-        "round::<F, _> rounds an extended float with that exponent (exponent -64: no width in the estimate, clamp to 64 in round); and every call-free exit that "
+        "round::<F, _> rounds an extended float with that exponent (exponent -64: no width in the estimate, clamp to 64 in round); the dropped-digits flag is honoured "
+        "(entered with many_digits set, lemire::<F> returns only declined or after evaluating and comparing w and w+1; bellerophon::<F> reaches error_is_accurate only "
+        "with an estimate of at least error_scale()); and every call-free exit that "
         "returns a literal zero/infinity is implied by the exponent bound of its own path. Whether a definite answer is the correctly rounded one is NOT decided.",
         A_E4 + [A_TOOL, A_TARGET],
     )
